@@ -1,5 +1,3 @@
-from typing import Dict
-
 import pywhy_graphs
 from pywhy_graphs.config import TetradEndpoint
 
@@ -98,6 +96,38 @@ def tetrad_to_graph(filename: str, graph_type):
     return G
 
 
+def _has_edge(G, u, v, edge_name_attr: str) -> bool:
+    """Check for an edge of the type named by ``edge_name_attr``, if ``G`` has that type."""
+    edge_type = getattr(G, edge_name_attr, None)
+    return edge_type is not None and G.has_edge(u, v, edge_type)
+
+
+def _tetrad_edge_strs(G, u, v):
+    """Tetrad edge strings ``u <str> v`` of all edges between ``u`` and ``v``."""
+    arrow = TetradEndpoint.ARROW.value
+    circle = TetradEndpoint.CIRCLE.value
+    tail = TetradEndpoint.TAIL.value
+
+    directed_uv = _has_edge(G, u, v, "directed_edge_name")
+    directed_vu = _has_edge(G, v, u, "directed_edge_name")
+    circle_uv = _has_edge(G, u, v, "circle_edge_name")
+    circle_vu = _has_edge(G, v, u, "circle_edge_name")
+
+    edge_strs = []
+    if directed_uv and directed_vu:
+        edge_strs.extend([f"{tail}-{arrow}", f"<-{tail}"])
+    elif directed_uv or directed_vu or circle_uv or circle_vu:
+        # directed and circle edges jointly define the two endpoints of one edge
+        end_u = "<" if directed_vu else (circle if circle_vu else tail)
+        end_v = arrow if directed_uv else (circle if circle_uv else tail)
+        edge_strs.append(f"{end_u}-{end_v}")
+    if _has_edge(G, u, v, "bidirected_edge_name"):
+        edge_strs.append(f"<-{arrow}")
+    if _has_edge(G, u, v, "undirected_edge_name"):
+        edge_strs.append(f"{tail}-{tail}")
+    return edge_strs
+
+
 def graph_to_tetrad(G, filename: str):
     """Convert a pywhy causal graph to a tetrad text file.
 
@@ -108,51 +138,19 @@ def graph_to_tetrad(G, filename: str):
     filename : str
         Output text file to write tetrad formatted graph.
     """
+    nodes = list(G.nodes)
     tetrad_txt = "Graph Nodes:\n"
-
-    graph_edge_dict: Dict = dict()
-    for idx, node in enumerate(G.nodes):
-        if idx == 0:
-            tetrad_txt += f"{node}"
-        else:
-            tetrad_txt += f";{node}"
-
-        # process all edge
-        if node not in graph_edge_dict:
-            graph_edge_dict[node] = dict()
-
-        # get all neighbors
-        nbrs = G.neighbors(node)
-
-        # for each neighbor, get the type of edges
-        node_nbr_str = ""
-        for nbr in nbrs:
-            if nbr not in graph_edge_dict:
-                graph_edge_dict[nbr] = dict()
-            if nbr in graph_edge_dict[node] or node in graph_edge_dict[nbr]:
-                continue
-
-            # process edge types among all possible nodes
-            if G.has_edge(node, nbr, G.directed_edge_name):
-                if not G.has_edge(nbr, node):
-                    node_nbr_str = "-->"
-                elif G.has_edge(nbr, node, G.circle_edge_name):
-                    node_nbr_str = "o->"
-            elif G.has_edge(node, nbr, G.bidirected_edge_name):
-                node_nbr_str = "<->"
-            elif G.has_edge(node, nbr, G.undirected_edge_name):
-                node_nbr_str = "---"
-
-            graph_edge_dict[node][nbr] = node_nbr_str
-
+    tetrad_txt += ";".join(f"{node}" for node in nodes)
     tetrad_txt += "\n\n"
     tetrad_txt += "Graph Edges:\n"
 
+    # every edge is written once, from the node that comes first in the node order
     idx = 1
-    for node, nbr_dict in graph_edge_dict.items():
-        for nbr, edge_str in nbr_dict.items():
-            tetrad_txt += f"{idx}. {node} {edge_str} {nbr}\n"
-            idx += 1
+    for node_idx, node in enumerate(nodes):
+        for nbr in nodes[node_idx + 1 :]:
+            for edge_str in _tetrad_edge_strs(G, node, nbr):
+                tetrad_txt += f"{idx}. {node} {edge_str} {nbr}\n"
+                idx += 1
 
     with open(filename, "w") as fout:
         fout.write(tetrad_txt)
